@@ -427,6 +427,7 @@ pub fn catalogue(scn: &Scn) -> Vec<(&'static str, bool)> {
         ("missing-signature", false),
         ("signed-by-other-key", false),
         ("foreign-owned-extra-input", true),
+        ("foreign-input-behind-valueless-first-input", true),
         ("nonexistent-input", true),
         ("already-spent-input", true),
         ("duplicated-input", true),
@@ -538,6 +539,28 @@ pub fn apply_edit(f: &Factory, base: &[Transaction], e: &Edit, pools: &Pools) ->
             ts[p].to[0].amount += victim.amount;
             ts[p].to[0].public_key = key(ATTACKER).0;
             ts[p].sign(&key(owner).1);
+        }
+        "foreign-input-behind-valueless-first-input" => {
+            // the first input carries no value (legal; never looked up) and belongs to the key that signs; every
+            // value-carrying input behind it belongs to ONE foreign key. ip 0: a stranger signs; otherwise the original owner
+            let who = if e.ip == 0 { ATTACKER } else { owner };
+            let mut z = Slip::default();
+            z.public_key = key(who).0;
+            z.amount = 0;
+            let mut from = vec![z, victim.clone()];
+            if e.ip == 2 {
+                if let Some(v2) = pools.victim.iter().find(|s| s.public_key == victim.public_key && s.get_utxoset_key() != victim.get_utxoset_key()) {
+                    from.push(v2.clone());
+                }
+            }
+            let total: Currency = from.iter().map(|s| s.amount).sum();
+            ts[p].from = from;
+            let mut o = Slip::default();
+            o.public_key = key(ATTACKER).0;
+            o.amount = total;
+            ts[p].to = vec![o];
+            ts[p].sign(&key(who).1);
+            signers[p] = who;
         }
         "nonexistent-input" => {
             // block_id / tx_ordinal are not part of the signed bytes: no re-signing needed
@@ -763,7 +786,7 @@ pub fn reseal(b: &mut Block, signer: Option<u64>, recompute_root: bool) {
         t.generate_hash_for_signature();
     }
     if recompute_root {
-        b.merkle_root = b.generate_merkle_root(false, false);
+        b.merkle_root = crate::node::ref_merkle_root(&b.transactions);
     }
     b.generate_pre_hash();
     if let Some(k) = signer {
@@ -793,7 +816,13 @@ fn hs_of(b: &Block) -> i128 {
 
 /// offer `cand` (already through the wire, NOT generated) to a fresh node in the scenario's state
 pub async fn run_block(scn: &Scn, cand: &Block, signers: &[u64], extra: &str, ids: &mut Ids) -> BlockObs {
-    let mut node = mk_node(scn).await;
+    run_block_at(scn, cand, signers, extra, ids, false).await
+}
+
+/// `first`: the candidate is offered to a node that holds no block at all (the first block of a chain)
+pub async fn run_block_at(scn: &Scn, cand: &Block, signers: &[u64], extra: &str, ids: &mut Ids, first: bool) -> BlockObs {
+    let mut node = if first { VNode::new(scn.gp, scn.stake) } else { mk_node(scn).await };
+    let (tip_id, tip_hs, tip_treasury) = if first { (0u64, 0i128, 0) } else { (scn.tip().id, hs_of(scn.tip()), scn.tip().treasury) };
     let mut g = cand.clone();
     let gen_ok = g.generate().is_ok();
     let (op, val);
@@ -838,7 +867,7 @@ pub async fn run_block(scn: &Scn, cand: &Block, signers: &[u64], extra: &str, id
                 g.total_payout_atr,
                 cv.total_fees_atr,
                 g.total_fees_atr,
-                scn.tip().treasury,
+                tip_treasury,
                 g.treasury,
                 cv.rebroadcasts.len(),
                 cv.rebroadcasts.iter().map(|t| t.to[0].amount).collect::<Vec<_>>(),
@@ -847,7 +876,7 @@ pub async fn run_block(scn: &Scn, cand: &Block, signers: &[u64], extra: &str, id
         }
         let unlocked = bc.get_latest_unlocked_stake_block_id();
         let floor = g.id.saturating_sub(scn.gp);
-        let old_floor = scn.tip().id.saturating_sub(scn.gp);
+        let old_floor = tip_id.saturating_sub(scn.gp);
         // counted in the supply before this block, outside the window after it (spent or not)
         let mut xr: u128 = 0;
         for (k, v) in bc.utxoset.iter() {
@@ -876,9 +905,10 @@ pub async fn run_block(scn: &Scn, cand: &Block, signers: &[u64], extra: &str, id
             let fe = t.transaction_type == TransactionType::Fee && exp_hash == Some(hash(&t.serialize_for_signature()));
             txs.push(project_tx(t, signer, fe, unlocked, floor, ids));
         }
-        let mr = if g.merkle_root == g.generate_merkle_root(false, false) { "ok" } else { "bad" };
+        // the commitment is recomputed by the harness' own construction, not by the code under test
+        let mr = if g.merkle_root == crate::node::ref_merkle_root(&g.transactions) { "ok" } else { "bad" };
         let hsig = verify_signature(&g.pre_hash, &g.signature, &g.creator);
-        let dhs = hs_of(&g) - hs_of(scn.tip());
+        let dhs = hs_of(&g) - tip_hs;
         op = format!(
             "blk {}id={} vau={} ssr={} dhs={} xr={} atr={} mr={} hsig={} hdr=1 u={} T {}",
             extra,
@@ -1473,6 +1503,7 @@ async fn run_async(seed: u64, tier: &str, outdir: &str) {
             // ---------------- C06
             let base = w.base.clone();
             run_c06(&mut out, &mut w.scn, &base, name, thorough, None).await;
+            run_c06_first(&mut out, &w.scn, name).await;
         }
     }
     // ---------------- C06 on a node that joined mid-chain (no block 1: validate_against_utxo = false)
@@ -1684,7 +1715,7 @@ async fn run_c06(out: &mut Out, scn: &mut Scn, base: &[Transaction], name: &str,
             let accepted = o.val == Some(true) && (o.add == "added_lc" || o.add == "panic-supply");
             if accepted {
                 let eh = tx_hashes(&g);
-                let committed = g.merkle_root == g.generate_merkle_root(false, false);
+                let committed = g.merkle_root == crate::node::ref_merkle_root(&g.transactions);
                 let cls = list_class(&orig_hashes, &eh);
                 if !committed {
                     out.monitor_fail(
@@ -1724,6 +1755,86 @@ async fn run_c06(out: &mut Out, scn: &mut Scn, base: &[Transaction], name: &str,
                         &format!("C01/block-validation/{}", c),
                         &format!("Block::validate returned true and the block was wound (add_block: {})", o.add),
                         serde_json::json!({"scenario": name, "gt": gt, "edit": en, "seal": format!("{:?}", seal), "op": o.op}),
+                    );
+                }
+            }
+        }
+    }
+}
+
+/// C06 on the FIRST block of a chain: the scenario's block 1 (issuance transactions), its transaction list edited, offered
+/// to a node that holds no block yet. The rule "a block needs at least one transaction" exempts block 1, so the
+/// commitment check is all that binds its transaction list.
+async fn run_c06_first(out: &mut Out, scn: &Scn, name: &str) {
+    let orig = scn.chain[0].clone();
+    if orig.id != 1 || orig.transactions.len() < 2 {
+        return;
+    }
+    let n = orig.transactions.len();
+    let mut edits: Vec<(String, Block)> = vec![("none".into(), orig.clone())];
+    let mut b = orig.clone();
+    b.transactions.clear();
+    edits.push(("drop-all".into(), b));
+    for i in [0, n - 1] {
+        let mut b = orig.clone();
+        b.transactions.remove(i);
+        edits.push((format!("drop-{}", if i == 0 { "first" } else { "last" }), b));
+    }
+    let mut b = orig.clone();
+    b.transactions.truncate(1);
+    edits.push(("keep-first-only".into(), b));
+    let mut b = orig.clone();
+    b.transactions.swap(0, n - 1);
+    edits.push(("swap-first-last".into(), b));
+    let mut b = orig.clone();
+    let t = b.transactions[0].clone();
+    b.transactions.push(t);
+    edits.push(("duplicate-first".into(), b));
+    let orig_w = {
+        let mut w = wire(&orig).unwrap();
+        w.generate().unwrap();
+        w
+    };
+    let orig_hashes = tx_hashes(&orig_w);
+    let creator = owner_of(&orig.creator);
+    for (en, b) in edits {
+        for seal in [Seal::Keep, Seal::ZeroRoot, Seal::Creator, Seal::Other] {
+            let mut c = b.clone();
+            match seal {
+                Seal::Keep => {}
+                Seal::ZeroRoot => c.merkle_root = [0; 32],
+                Seal::Creator => reseal(&mut c, Some(creator), true),
+                Seal::Other => reseal(&mut c, Some(ATTACKER), true),
+                Seal::RootOnly => reseal(&mut c, None, true),
+            }
+            let Some(cand) = wire(&c) else {
+                out.count("c06:not-decodable");
+                continue;
+            };
+            let mut g = cand.clone();
+            let gen_ok = g.generate().is_ok();
+            let mut ids = Ids::default();
+            let signers: Vec<u64> = g.transactions.iter().map(|t| if sig_ok(t) { owner_of(&t.from[0].public_key) } else { 99 }).collect();
+            let o = run_block_at(scn, &cand, &signers, &format!("e={}/first/{}/{:?} ", name, en, seal), &mut ids, true).await;
+            out.case(&o.op, &o.ans);
+            out.count(&format!("c06:{}:first:{:?}:{}", name, seal, en));
+            out.count(&format!("c06-result:{}", o.add));
+            let accepted = o.val == Some(true) && (o.add == "added_lc" || o.add == "panic-supply");
+            if accepted && gen_ok {
+                let same = g.hash == orig_w.hash;
+                let cls = list_class(&orig_hashes, &tx_hashes(&g));
+                if g.merkle_root != crate::node::ref_merkle_root(&g.transactions) {
+                    out.monitor_fail(
+                        &format!("C06/accepted-block-carries-tx-list-not-matching-its-signed-root/first-block/{}", if same { cls } else { "header-root-altered" }),
+                        &format!("an empty node accepted, as the first block of its chain, a block whose transactions do not hash to the merkle root in its signed header (same hash as the original: {}; add_block: {})", same, o.add),
+                        serde_json::json!({"scenario": name, "edit": en, "seal": format!("{:?}", seal), "op": o.op}),
+                    );
+                }
+                if !verify_signature(&g.pre_hash, &g.signature, &g.creator) {
+                    out.monitor_fail(
+                        "C06/accepted-block-not-signed-by-its-stated-creator/first-block",
+                        &format!("an empty node accepted a first block whose header signature does not verify under its stated creator (add_block: {})", o.add),
+                        serde_json::json!({"scenario": name, "edit": en, "seal": format!("{:?}", seal), "op": o.op}),
                     );
                 }
             }
